@@ -29,12 +29,38 @@ def short(node, n=110):
     return t if len(t) <= n else t[:n - 3] + '...'
 
 
+class _Normalise(ast.NodeTransformer):
+    """Behaviour-preserving normal form so that equivalent spellings do not reach the rules:
+    `x == None` -> `x is None`, `x != None` -> `x is not None`; `pass` dropped where it is not the only statement; `else: pass` dropped."""
+
+    def visit_Compare(self, n):
+        self.generic_visit(n)
+        for i, (op, c) in enumerate(zip(n.ops, n.comparators)):
+            left = n.left if i == 0 else n.comparators[i - 1]
+            if isinstance(op, (ast.Eq, ast.NotEq)) and (
+                    (isinstance(c, ast.Constant) and c.value is None) or (isinstance(left, ast.Constant) and left.value is None)):
+                n.ops[i] = ast.Is() if isinstance(op, ast.Eq) else ast.IsNot()
+        return n
+
+    def generic_visit(self, node):
+        super().generic_visit(node)
+        for fld in ('body', 'orelse', 'finalbody'):
+            L = getattr(node, fld, None)
+            if isinstance(L, list) and L and all(isinstance(x, ast.stmt) for x in L):
+                kept = [x for x in L if not isinstance(x, ast.Pass)]
+                if kept:
+                    setattr(node, fld, kept)
+                elif fld == 'orelse':
+                    setattr(node, fld, [])
+        return node
+
+
 class Mod:
     def __init__(self, name, path, src):
         self.name = name
         self.path = path
         self.src = src
-        self.tree = ast.parse(src, filename=path)
+        self.tree = _Normalise().visit(ast.parse(src, filename=path))
         for parent in ast.walk(self.tree):
             for child in ast.iter_child_nodes(parent):
                 child._parent = parent
@@ -292,7 +318,7 @@ class Model:
             if f.is_static and any(isinstance(n, ast.Compare) and any(isinstance(o, ast.Is) for o in n.ops) for n in f.walk()) \
                     and any(isinstance(n, ast.For) for n in f.walk()):
                 idfind.append(f.name)
-        R.IDFIND = sorted(idfind) or ['_find_setting_reference', '_find_settings_references']
+        R.IDFIND = sorted(set(idfind) | {n for n in ('_find_setting_reference', '_find_settings_references') if n in A.methods})
         # the single-result helper (returns an int) vs. the pair-list helper
         R.IDFIND1 = None
         R.IDFINDN = None
